@@ -108,6 +108,23 @@ def check(ctx):
                     pts.append(('tiny', [other, tiny, other]))
                     if lo <= -tiny:
                         pts.append(('tiny', [-tiny, other, tiny]))
+            # very long vectors (beyond any block size an implementation may process the coordinates in): judged against the
+            # scalar transcription only (not sent to the driver)
+            huge = []
+            if name in ('brown', 'csendes', 'quintic', 'sphere', 'schwefel', 'rastringin', 'alpine1', 'chung_reynolds') or ctx['tier'] == 'thorough':
+                for n in (65537, 70001):
+                    huge.append(('huge', [1.0] * n))
+                    huge.append(('huge', [C.rng.uniform(lo, hi) for _ in range(n)]))
+            for tag, x in huge:
+                try:
+                    y = float(fn(np.array(x, dtype=float)))
+                    ref = float(REF[name](x))
+                except Exception as ex:
+                    C.issue('benchmark-raised', 'oracle', dict(how='bench-huge', name=name, n=len(x), ones=(x[0] == 1.0 and x[-1] == 1.0)), error=repr(ex)[:100])
+                    continue
+                if ref == ref and abs(ref) != float('inf') and not close(ref, y):
+                    C.issue('not-the-documented-formula', 'oracle', dict(how='bench-huge', name=name, n=len(x), ones=(x[0] == 1.0 and x[-1] == 1.0)), got=y, reference=ref)
+                C.case(key=(name, 'huge', len(x), x[0]), nontrivial=True, kind=f'{name}/huge')
             ok_pts = []
             for tag, x in pts:
                 try:
@@ -306,6 +323,19 @@ def replay(prop, payload):
     L = lib.load()
     np = L['np']
     import opytimizer.math.benchmark as bm
+    if payload.get('how') == 'bench-huge':
+        # only the all-ones vectors replay from the file (the random ones are re-drawn by the check)
+        name = payload['name']
+        x = [1.0] * payload['n']
+        try:
+            y = float(getattr(bm, name)(np.array(x, dtype=float)))
+            ref = float(REF[name](x))
+        except Exception:
+            return True
+        if not close(ref, y):
+            return True
+        res = check(dict(seed=0, tier='quick', prop=prop))
+        return any(i['layer'] == 'oracle' and i.get('replay', {}).get('how') == 'bench-huge' for i in res['issues'])
     name, x = payload['name'], payload['x']
     try:
         float(np.asarray(getattr(bm, name)(np.array(x, dtype=float))).reshape(-1)[0])
